@@ -405,8 +405,8 @@ def run_block(task, out):
 
 
 def plan(tier, seed):
-    n = 48 if tier == 'quick' else 1600
-    per = 3 if tier == 'quick' else 25
+    n = 240 if tier == 'quick' else 2400
+    per = 5 if tier == 'quick' else 25
     return [{'i': i, 'n': per, 'seed': seed, 'cost': per * 300}
             for i in range(n // per)]
 
